@@ -7,6 +7,7 @@ From Qryn Require Import model.ReaderGoroutines model.ReaderFlow proofs.ReaderFl
   model.ReadProm model.ReadConv proofs.PipelineProofs proofs.ReadPathProofs proofs.ReadFwdProofs proofs.ReadPromProofs proofs.ReadConvProofs.
 From Qryn Require model.TailSession proofs.TailSessionProofs.   (* qualified: its step / star / init are not the pipeline's *)
 From Qryn Require model.ProfTree model.ProfDiff model.ReadProf proofs.ReadProfProofs.   (* qualified: ProfTree.row is not ReadPath.row *)
+From Qryn Require model.ReadPool proofs.ReadPoolProofs.   (* qualified: short constructor names *)
 Import ListNotations.
 Open Scope Z_scope.
 
@@ -423,3 +424,56 @@ Theorem prom_conversion_any_value_is_bounded : forall (inst : bool) (now any_sta
   pwf e = true -> engine_bounded (prom_outcome (mkPR inst now (PNum any_start) (PNum any_end) (PNum any_step) (PQ e))).
 Proof. intros inst now a b c e H. apply prom_accepted_bounded. exact H. Qed.
 Print Assumptions prom_conversion_any_value_is_bounded.
+
+(* ---------------------------------------------------------------------------------------------------------------------
+   StableSqlxDBWrapper (reader/utils/dsn/sqlxWrap.go, model/ReadPool.v): the object every statement of every read
+   endpoint goes through. One RWMutex: a statement runs under the read lock; when it fails, the wrapper takes the write
+   lock and rebuilds the connection pool. Threads = requests served by one process, each any sequence of read / write
+   sections; the mutex state is what the threads hold; Go's writer preference (an announced writer keeps new readers out). *)
+
+(* ANY number of concurrent threads, each ANY sequence of sections in which a lock taken is given back before the next one
+   is asked for (the shape locks_released_on_every_path establishes for every unit of the file), EVERY interleaving: the
+   schedule is finite, and it can only stop with every thread through and the mutex free -- nobody waits for ever. *)
+Theorem pool_wrapper_never_wedges : forall progs, forallb (ReadPool.pl_ok ReadPool.MOut) progs = true ->
+  let init := map ReadPool.pl_fresh progs in
+  Acc (fun b a => ReadPool.pl_step a b) init /\
+  forall ts, ReadPool.pl_star init ts -> ReadPool.pl_stuck ts ->
+             forallb (fun t => andb (ReadPool.pl_done t) (ReadPool.pl_free t)) ts = true.
+Proof. exact ReadPoolProofs.pool_never_wedges. Qed.
+Print Assumptions pool_wrapper_never_wedges.
+
+(* the instance: any number of concurrent read requests, each issuing any number of statements through QueryCtx, the
+   database doing anything with each of them (answers / refuses / the caller gave up mid-statement) *)
+Theorem read_requests_never_wedge_the_pool : forall reqs : list (list ReadPool.pl_event),
+  let init := map (fun evs => ReadPool.pl_fresh (ReadPool.pl_request ReadPool.pl_query_ctx evs)) reqs in
+  Acc (fun b a => ReadPool.pl_step a b) init /\
+  forall ts, ReadPool.pl_star init ts -> ReadPool.pl_stuck ts ->
+             forallb (fun t => andb (ReadPool.pl_done t) (ReadPool.pl_free t)) ts = true.
+Proof. exact ReadPoolProofs.read_requests_never_wedge. Qed.
+Print Assumptions read_requests_never_wedge_the_pool.
+
+(* histories (requests served one after the other -- what the harness replays through the real wrapper): every request
+   of every history is answered and the pool is rebuilt exactly once per failed statement *)
+Theorem every_history_through_the_wrapper_is_answered : forall reqs,
+  ReadPool.pl_history ReadPool.pl_query_ctx [] reqs = map (fun evs => (true, ReadPool.pl_failed evs)) reqs.
+Proof. exact ReadPoolProofs.every_history_is_answered. Qed.
+Print Assumptions every_history_through_the_wrapper_is_answered.
+
+(* the release on every path is NEEDED (seeded change C12-e: an early return before the RUnlock when the statement failed
+   with the caller's context cancelled). Once a finished thread has kept a read lock, in every reachable state every
+   thread that has a pool rebuild ahead still has it ahead (it is never answered); and once one of them has announced
+   itself, every thread that has a read lock ahead still has it ahead: the whole read side hangs. Witness history: a
+   caller gives up mid-statement, the database refuses a statement, a healthy request -- answered (with 1, 1, 0 rebuilds)
+   by the wrapper as it is; with the early return the second and third are never answered. *)
+Theorem pool_wrapper_needs_the_release_on_every_path :
+  (forall a b, ReadPool.pl_star a b -> existsb ReadPoolProofs.pl_leaked a = true ->
+     existsb ReadPoolProofs.pl_leaked b = true /\ map ReadPoolProofs.pl_wants_write b = map ReadPoolProofs.pl_wants_write a) /\
+  (forall a b, ReadPool.pl_star a b -> ReadPoolProofs.pl_wedged a = true ->
+     ReadPoolProofs.pl_wedged b = true /\ map ReadPoolProofs.pl_wants_read b = map ReadPoolProofs.pl_wants_read a) /\
+  ReadPool.pl_history ReadPool.pl_query_ctx [] ReadPoolProofs.pl_witness = [(true, 1); (true, 1); (true, 0)] /\
+  ReadPool.pl_history ReadPool.pl_query_ctx_leaky [] ReadPoolProofs.pl_witness = [(true, 0); (false, 0); (false, 0)].
+Proof.
+  exact (conj ReadPoolProofs.leaked_read_lock_blocks_every_rebuild
+        (conj ReadPoolProofs.wedged_pool_blocks_every_reader ReadPoolProofs.pl_witness_runs)).
+Qed.
+Print Assumptions pool_wrapper_needs_the_release_on_every_path.
